@@ -107,6 +107,14 @@ inductive StrSub where
 inductive NumPh where
   | neg | zero | int | dot | frac | e | esign | exp
 
+inductive LitKind where
+  | tt | ff | nul
+
+def LitKind.val : LitKind → JV
+  | .tt => .bool true
+  | .ff => .bool false
+  | .nul => .null
+
 inductive Mode where
   | bv                       -- stateBeginValue
   | bvOrEmpty                -- stateBeginValueOrEmpty (after `[`)
@@ -116,7 +124,7 @@ inductive Mode where
   | top (v : JV)             -- stateEndTop: the top-level value is complete
   | str (raw : Bytes) (sub : StrSub)      -- in a string literal; `raw` reversed, without quotes
   | num (raw : Bytes) (ph : NumPh)        -- in a number; `raw` reversed
-  | lit (rest : Bytes) (v : JV)           -- in true/false/null: bytes still expected
+  | lit (rest : Bytes) (k : LitKind)      -- in true/false/null: bytes still expected
   | err
 
 structure St where
@@ -278,9 +286,9 @@ def beginValue (stk : List Frame) (c : Nat) : St :=
   else if c = 45 then ⟨.num [c] .neg, stk⟩
   else if c = 48 then ⟨.num [c] .zero, stk⟩
   else if 49 ≤ c ∧ c ≤ 57 then ⟨.num [c] .int, stk⟩
-  else if c = 116 then ⟨.lit [114, 117, 101] (.bool true), stk⟩
-  else if c = 102 then ⟨.lit [97, 108, 115, 101] (.bool false), stk⟩
-  else if c = 110 then ⟨.lit [117, 108, 108] .null, stk⟩
+  else if c = 116 then ⟨.lit [114, 117, 101] .tt, stk⟩
+  else if c = 102 then ⟨.lit [97, 108, 115, 101] .ff, stk⟩
+  else if c = 110 then ⟨.lit [117, 108, 108] .nul, stk⟩
   else St.error
 
 /-- stateEndValue / stateEndTop -/
@@ -377,11 +385,11 @@ def step (s : St) (c : Nat) : St :=
     else St.error
   | .str raw sub => stepStr raw sub s.stack c
   | .num raw ph => stepNum raw ph s.stack c
-  | .lit rest v =>
+  | .lit rest k =>
     match rest with
     | [] => St.error
     | r :: rs =>
-      if c = r then (if rs.isEmpty then complete v s.stack else ⟨.lit rs v, s.stack⟩)
+      if c = r then (if rs.isEmpty then complete k.val s.stack else ⟨.lit rs k, s.stack⟩)
       else St.error
 
 def St.init : St := ⟨.bv, []⟩
